@@ -195,3 +195,16 @@ pub type Shared<T> = std::sync::Arc<std::sync::Mutex<T>>;
 pub fn shared<T>(t: T) -> Shared<T> {
     std::sync::Arc::new(std::sync::Mutex::new(t))
 }
+
+/// Where runs put their temporary trees and archives: inside the orchestrator's scratch directory (removed when the
+/// batch ends, also when a worker was killed), else /dev/shm or the system temp dir.
+pub fn scratch_base() -> std::path::PathBuf {
+    if let Some(d) = std::env::var_os("SIMCHECK_SCRATCH") {
+        return std::path::PathBuf::from(d);
+    }
+    if std::path::Path::new("/dev/shm").is_dir() {
+        std::path::PathBuf::from("/dev/shm")
+    } else {
+        std::env::temp_dir()
+    }
+}
